@@ -423,7 +423,7 @@ def run_case(inp):
             keys = [tuple(int(out.features[c][i]) for c in by) for i in range(n_)]
             if keys != sorted(keys, reverse=bool(kw.get("descending"))):
                 V("sorted", f"sort({by}, {kw}) result is not ordered by the keys")
-            if np.abs(out.pos - pos[tags]).max() > 1e-4:
+            if not (np.abs(out.pos - pos[tags]).max() <= 1e-4):
                 V("row-integrity", f"sort({by}, {kw}): positions no longer belong to the rows' features")
             dq = np.abs(np.sum(out.quaternion() * rot.as_quat()[tags], axis=1))
             bad = int(np.sum(dq < 1 - 1e-5))
